@@ -389,6 +389,40 @@ pub fn standard_scenarios(srcs: &SrcCache) -> Vec<Scenario> {
     ]
 }
 
+/// Deterministic bytes that do not compress (xorshift), for inputs that have to cross size
+/// thresholds *after* compression (buffers of the local transport, block files above 2 MiB).
+pub fn incompressible(n: usize, seed: u64) -> Vec<u8> {
+    let mut x = seed.wrapping_mul(0x9E37_79B9_7F4A_7C15) | 1;
+    let mut v = Vec::with_capacity(n + 8);
+    while v.len() < n {
+        x ^= x << 13;
+        x ^= x >> 7;
+        x ^= x << 17;
+        v.extend_from_slice(&x.to_le_bytes());
+    }
+    v.truncate(n);
+    v
+}
+
+/// A tree with files whose blocks stay above 2 MiB after compression, under default options.
+pub fn tree_big() -> Tree {
+    let mut t = tree_t1();
+    t.insert("bigrnd".into(), Node::file(&incompressible(3 << 20, 1), T0 + 60));
+    t.insert("bigrnd2".into(), Node::file(&incompressible((2 << 20) + 4097, 2), T0 + 61));
+    t
+}
+
+/// Scenarios with large inputs (kept apart: the fault sweeps of C04 would pay for them many times).
+pub fn big_scenarios(srcs: &SrcCache) -> Vec<Scenario> {
+    vec![build_scenario(
+        "S12-b0(T1)+big-incompressible-files-defaults",
+        &[Step::Backup(tree_t1(), BOpts::defaults())],
+        tree_big(),
+        BOpts::defaults(),
+        srcs,
+    )]
+}
+
 // ---------------------------------------------------------------------------------------------
 // Shared oracles
 
